@@ -1,0 +1,20 @@
+//go:build verif
+
+package scroll
+
+// C19 (client-supplied names cannot escape the data directory), scroll ids:
+// the files of a scroll context are named <data>/<host>/scroll/<id>.csv, so
+// the ids under which contexts are registered must be minted by the server
+// (a UUID: safeName), never adopted from the request; and a client-supplied id
+// is acceptable only if the server already holds a context under it.
+// Checked by /verif/bin/govc.  Comment-only file.
+//@ func GetScrollRecord
+//@   props C19
+//@   site mapupdate allScrollRecords[scroll_id] #1:
+//@     assert [contexts-are-registered-under-server-minted-ids] uf("safeName", bool, scroll_id)
+//@ end
+
+//@ func IsScrollIdValid
+//@   props C19
+//@   ensures [valid-only-if-the-server-holds-the-context] implies(result, haskey(allScrollRecords, scrollId))
+//@ end
